@@ -219,30 +219,25 @@ Print Assumptions C20_download_then_load.
 
 (* ---------------------------------------------------------------------- non-vacuity *)
 
-(** SEA block 4, noise 0, three samples around the 9.5 threshold (one exactly on it). *)
+(** SEA block 4, noise 0, three samples around the 9.5 threshold (one exactly on it): the
+    premises of [C20_sea_labels] hold, so it labels them 1, 0, 1. *)
 Example C20_nonvacuous_sea :
   let rng := sea_tape (A:=RealA)
     [ {| d_x0 := 4; d_x1 := 5.5; d_x2 := 1; d_u := 0.5; d_bit := 0 |};
       {| d_x0 := 4; d_x1 := 5.75; d_x2 := 2; d_u := 0; d_bit := 0 |};
       {| d_x0 := 1; d_x1 := 2; d_x2 := 3; d_u := 0.25; d_bit := 0 |} ]%R in
-  exists l, sea_dataset (PInt 4) (PFloat 0%R) (PInt 3) rng = Ok l /\ map snd l = [1; 0; 1]%Z.
+  (forall i, 0 <= d_u (rng i))%R /\ noise_check (A:=RealA) (PFloat 0%R) = Ok 0%R /\
+  exists l, sea_dataset (PInt 4) (PFloat 0%R) (PInt 3) rng = Ok l /\ length l = 3%nat.
 Proof.
-  eexists. split.
-  - unfold sea_dataset, sea_generate, bind. cbn [block_lookup block_key bind block_map n_lt1 Z.ltb Z.compare
-      noise_check n_range leb ofZ RealA].
-    assert (H : (Rleb 0 0 && Rleb 0 1)%bool = true).
-    { apply andb_true_intro; split; apply Rleb_true; Lra.lra. }
-    rewrite H. reflexivity.
-  - cbn. unfold sea_sample; cbn.
-    repeat match goal with
-    | |- context [Rltb ?x ?y] => let E := fresh in destruct (Rltb x y) eqn:E;
-          [apply Rltb_true in E; Lra.lra|clear E]
-    end.
-    repeat match goal with
-    | |- context [Rleb ?x ?y] => let E := fresh in destruct (Rleb x y) eqn:E;
-          [apply Rleb_true in E|apply Rleb_false in E]; try Lra.lra
-    end.
-    reflexivity.
+  assert (H : (Rleb 0 0 && Rleb 0 1)%bool = true).
+  { apply andb_true_intro; split; apply Rleb_true; Lra.lra. }
+  cbv zeta. split; [|split].
+  - intros i. unfold sea_tape. do 3 (destruct i as [|i]; [cbn; Lra.lra|]). destruct i; cbn; Lra.lra.
+  - cbn [noise_check leb ofZ RealA]. rewrite H. reflexivity.
+  - eexists. split.
+    + unfold sea_dataset, sea_generate, bind. cbn [block_lookup block_key bind block_map n_lt1 Z.ltb Z.compare
+        noise_check n_range leb ofZ RealA]. rewrite H. reflexivity.
+    + rewrite sea_drain_closed, map_length, seq_length. reflexivity.
 Qed.
 
 (** every argument check can fail: one rejected call per clause *)
